@@ -10,6 +10,7 @@ the cEMI parser can produce.
 -/
 import XknxVerif.Lemmas.DataSecure
 import XknxVerif.Lemmas.DataSecureHist
+import XknxVerif.Automata
 
 namespace XknxVerif.Props.C18
 open XknxVerif XknxVerif.Crypto XknxVerif.DataSecure
@@ -253,5 +254,156 @@ example : handle (fun _ _ => List.replicate 16 0) (some ⟨[(0x0A03, [])], [], 1
 example : handle (fun _ _ => List.replicate 16 0) (some ⟨[(0x0A03, [1])], [], 1⟩)
     ⟨0xBC60, true, 0, 0x1101, 0x0A03, 0, .plain [0x00, 0x81]⟩ (fun _ => true)
   = (some ⟨[(0x0A03, [1])], [], 1⟩, .keyIssue true) := by decide
+
+/-! ### Round 3: one handler across `data_secure_init` calls (interface restarts)
+
+A history is any list of `HEv`: `init keyring clock`, received frames, send
+requests.  "Current keyring" = the argument of the last `init`. -/
+
+open XknxVerif.Automata in
+/-- State of the handler after a history started without Data Secure. -/
+abbrev after (E : BlockFn) (s : Option DS) (evs : List HEv) : Option DS := (run (hstep E) s evs).1
+
+theorem handle_keys (E : BlockFn) (s : Option DS) (f : Frame) (io : Bytes → Bool) :
+    keysOf (handle E s f io).1 = keysOf s := by
+  cases s with
+  | none => simp only [handle]; split <;> rfl
+  | some ds =>
+    simp only [handle]
+    cases hr : received E ds f io with
+    | mk s' o =>
+      have hk : s'.keys = ds.keys := by
+        have := congrArg Prod.fst hr
+        simp only [received] at this
+        rw [← this]
+      cases o <;> simpa [keysOf] using hk
+
+theorem outgoing_keys (E : BlockFn) (ds : DS) (f : Frame) : (outgoing E ds f).1.keys = ds.keys := by
+  unfold outgoing
+  split
+  · split
+    · split
+      · rfl
+      · split <;> rfl
+    · rfl
+  · rfl
+
+/-- Only `data_secure_init` changes the key table. -/
+theorem hstep_keys (E : BlockFn) (s : Option DS) (e : HEv) (h : e.isInit = false) :
+    keysOf (hstep E s e).1 = keysOf s := by
+  cases e with
+  | init kr c => simp [HEv.isInit] at h
+  | recv f io => exact handle_keys E s f _
+  | send f =>
+    cases s with
+    | none => rfl
+    | some ds => simpa [hstep, keysOf] using outgoing_keys E ds f
+
+open XknxVerif.Automata in
+theorem run_keys (E : BlockFn) (evs : List HEv) (s : Option DS) (h : ∀ e ∈ evs, e.isInit = false) :
+    keysOf (after E s evs) = keysOf s := by
+  induction evs generalizing s with
+  | nil => rfl
+  | cons e es ih =>
+    simp only [after, run_cons]
+    have := ih (hstep E s e).1 (fun x hx => h x (List.mem_cons_of_mem _ hx))
+    simp only [after] at this
+    rw [this, hstep_keys E s e (h e (by simp))]
+
+/-- A successful `data_secure_init` installs exactly the keyring's key table – whatever was
+installed before (this is what the seeded change C18-3 broke: it kept the old object). -/
+theorem init_installs (E : BlockFn) (s : Option DS) (keys : List (Nat × Bytes)) (senders : List (Nat × Nat))
+    (c : Nat) (hc : initOk c = true) :
+    keysOf (hstep E s (.init (some (keys, senders)) c)).1 = keys := by
+  simp only [hstep, dsInit]
+  by_cases hk : keys = []
+  · simp [hk, keysOf]
+  · simp [hk, hc, keysOf]
+
+theorem init_none_disables (E : BlockFn) (s : Option DS) (c : Nat) :
+    (hstep E s (.init none c)).1 = none := rfl
+
+open XknxVerif.Automata in
+/-- **The key table in force is the one of the last `data_secure_init`**, for every
+history before it and every init-free history after it. -/
+theorem keys_are_last_init (E : BlockFn) (s0 : Option DS) (pre post : List HEv)
+    (keys : List (Nat × Bytes)) (senders : List (Nat × Nat)) (c : Nat) (hc : initOk c = true)
+    (hpost : ∀ e ∈ post, e.isInit = false) :
+    keysOf (after E s0 (pre ++ .init (some (keys, senders)) c :: post)) = keys := by
+  simp only [after, run_append, run_cons]
+  have := run_keys E post (hstep E (run (hstep E) s0 pre).1 (.init (some (keys, senders)) c)).1 hpost
+  simp only [after] at this
+  rw [this, init_installs E _ keys senders c hc]
+
+theorem keysOf_some (s : Option DS) (dst : Nat) (key : Bytes) (h : (keysOf s).lookup dst = some key) :
+    ∃ ds, s = some ds ∧ ds.keys.lookup dst = some key := by
+  cases s with
+  | none => simp [keysOf, List.lookup] at h
+  | some ds => exact ⟨ds, rfl, h⟩
+
+open XknxVerif.Automata in
+/-- **Plain data to an address keyed by the CURRENT keyring is never delivered** – after any
+number of restarts with any keyrings: only the key-issue route, state unchanged. -/
+theorem plain_to_currently_keyed (E : BlockFn) (s0 : Option DS) (pre post : List HEv)
+    (keys : List (Nat × Bytes)) (senders : List (Nat × Nat)) (c : Nat) (hc : initOk c = true)
+    (hpost : ∀ e ∈ post, e.isInit = false)
+    (f : Frame) (io : Bool) (key : Bytes)
+    (hp : f.payload.isSecure = false) (hg : f.group = true) (hk : keys.lookup f.dst = some key) :
+    (hstep E (after E s0 (pre ++ .init (some (keys, senders)) c :: post)) (.recv f io)).2
+      = [.route (.keyIssue (isTDataGroup f))] := by
+  have hkeys := keys_are_last_init E s0 pre post keys senders c hc hpost
+  obtain ⟨ds, hs, hl⟩ := keysOf_some _ f.dst key (by rw [hkeys]; exact hk)
+  rw [hs]
+  simp only [hstep, plain_to_keyed_only_key_issue E ds f _ key hp hg hl]
+
+open XknxVerif.Automata in
+/-- **Outgoing frames to an address with a (non-empty) key in the CURRENT keyring are never
+handed over plain**, after any number of restarts. -/
+theorem outgoing_to_currently_keyed (E : BlockFn) (s0 : Option DS) (pre post : List HEv)
+    (keys : List (Nat × Bytes)) (senders : List (Nat × Nat)) (c : Nat) (hc : initOk c = true)
+    (hpost : ∀ e ∈ post, e.isInit = false)
+    (f : Frame) (key : Bytes) (hg : f.group = true) (hk : keyFor keys f.dst = some key) :
+    ∀ g, (hstep E (after E s0 (pre ++ .init (some (keys, senders)) c :: post)) (.send f)).2 ≠ [.sendRes (.plain g)] := by
+  intro g
+  have hkeys := keys_are_last_init E s0 pre post keys senders c hc hpost
+  obtain ⟨ds, hs, hl⟩ := keysOf_some _ f.dst key (by rw [hkeys]; exact keyFor_lookup keys f.dst key hk)
+  have hkf : keyFor ds.keys f.dst = some key := by
+    have : ds.keys = keys := by rw [hs] at hkeys; exact hkeys
+    rw [this]; exact hk
+  rw [hs]
+  simp only [hstep]
+  rcases outgoing_keyed_never_plain E ds f key hg hkf with ⟨d, h⟩ | ⟨w, h⟩ | ⟨e, h⟩ <;> rw [h] <;> simp
+
+open XknxVerif.Automata in
+/-- An address the current keyring does NOT key takes plain data again, even if an earlier
+keyring keyed it (and vice versa nothing of an earlier keyring survives). -/
+theorem plain_to_currently_unkeyed (E : BlockFn) (s0 : Option DS) (pre post : List HEv)
+    (keys : List (Nat × Bytes)) (senders : List (Nat × Nat)) (c : Nat) (hc : initOk c = true)
+    (hpost : ∀ e ∈ post, e.isInit = false)
+    (f : Frame) (io : Bool) (hp : f.payload.isSecure = false) (hk : keys.lookup f.dst = none) :
+    (hstep E (after E s0 (pre ++ .init (some (keys, senders)) c :: post)) (.recv f io)).2
+      = [.route (.telegram f.payload.bytes false)] := by
+  have hkeys := keys_are_last_init E s0 pre post keys senders c hc hpost
+  generalize after E s0 (pre ++ .init (some (keys, senders)) c :: post) = s at hkeys
+  cases s with
+  | none => simp only [hstep, handle, hp]; rfl
+  | some ds =>
+    have : ds.keys.lookup f.dst = none := by simp only [keysOf] at hkeys; rw [hkeys]; exact hk
+    simp only [hstep, plain_elsewhere_passes E ds f _ hp (Or.inr this)]
+
+/-- Non-vacuity: restart with a keyring that keys one more address (0x0001); a plain frame to it
+is then a key issue, and a frame to the address the new keyring dropped (0x0A03) is delivered. -/
+example :
+    (XknxVerif.Automata.run (hstep (fun _ _ => List.replicate 16 0)) none
+      [ .init (some ([(0x0A03, [1])], [])) 1000,
+        .recv ⟨0xBC60, true, 0, 0x1101, 0x0001, 0, .plain [0x00, 0x81]⟩ true,
+        .init (some ([(0x0001, [2])], [])) 2000,
+        .recv ⟨0xBC60, true, 0, 0x1101, 0x0001, 0, .plain [0x00, 0x81]⟩ true,
+        .recv ⟨0xBC60, true, 0, 0x1101, 0x0A03, 0, .plain [0x00, 0x81]⟩ true,
+        .init none 3000,
+        .recv ⟨0xBC60, true, 0, 0x1101, 0x0001, 0, .plain [0x00, 0x81]⟩ true ]).2
+    = [ .inited true, .route (.telegram [0x00, 0x81] false),
+        .inited true, .route (.keyIssue true), .route (.telegram [0x00, 0x81] false),
+        .inited false, .route (.telegram [0x00, 0x81] false) ] := by decide
 
 end XknxVerif.Props.C18
